@@ -650,6 +650,33 @@ def section_rules(ctx, W, wm):
     ctx.check(bool(oks) and all([h for h in o if h != 'RANGES'] == want for o in oks), R + '/order', 'T-BRANCHFX', wm.name, 'sections are written in the order %s, the format has %s' % (oks[:1] or 'none', want), wm.site())
 
 
+def output_rules(ctx, W):
+    """the written file is the whole text: the entry point write_file hands the instance to write_mps on every successful path (its
+    failure is the function's failure), and no byte sink in the writer may take only part of what it is given -- `io::Write::write`
+    (and write_vectored) return how much they accepted; they are allowed only inside a loop that goes on with the rest
+    (write_all / write! / writeln! do that themselves)"""
+    R = 'C18.output'
+    bodies = dict(W)
+    for n, b in ctx.F.bodies.items():
+        if b.kind in ('fn', 'closure') and re.match(r'^mps::write_file\b', b.parent if b.kind == 'closure' else n): bodies[n] = b
+    partial = []
+    for n, b in sorted(bodies.items()):
+        for c in b.calls:
+            if c.item in ('write', 'write_vectored') and ('io::Write' in (c.trait or '') or re.search(r' as std::io::Write>::write(_vectored)?$', c.name)):
+                nxt = [x for x in b.succ(c.bb) if not b.blocks[x]['cleanup']]
+                if c.bb not in b.reach(nxt): partial.append('%s (line %s)' % (n.split('::')[-1], b.site(c.bb).split(':')[-1]))
+    ctx.check(not partial, R + '/no-partial-write', 'T-MUSTCALL', 'mps', 'io::Write::write may accept only part of the buffer and is not repeated for the rest: %s' % ', '.join(partial[:3]), '')
+    wf = ctx.F.free_fn('mps::write_file')
+    if wf is None: ctx.lost(R + '/entry', 'mps::write_file'); return
+    ctx.fn(wf)
+    res = failure_is_error(ctx, R + '/entry', 'T-MUSTCALL', wf, lambda v: v[1] == 'write_mps', 'Err')
+    ps = sx_paths(ctx, R + '/entry', 'T-MUSTCALL', wf, SxOracle())
+    if res is None or ps is None: return
+    sx = Sx(ctx, wf, SxOracle())
+    oks = [p for p in ps if p.end == 'return' and p.value is not None and sx.variant(p.value, p) != 'Err']
+    ctx.check(bool(oks) and all(p.calls('write_mps') for p in oks) and res[0] >= 1 and not res[1], R + '/entry', 'T-MUSTCALL', wf.name, 'write_file does not write the instance with write_mps on every successful path, its error propagated (%s)' % ('; '.join(res[1][:2]) or 'a successful path without write_mps'), wf.site())
+
+
 # the round trip reads the written text back through the MPS reader and converter
 RELIES_ON = {'C17': ['C17']}
 
@@ -659,9 +686,9 @@ def check(ctx):
     if len(W) < 8:
         ctx.lost('C18.writer', 'functions of mps::to_mps (found %d)' % len(W)); return
     for b in W.values(): ctx.fn(b)
-    magic_rules(ctx, W); keyword_rules(ctx, W); linear_rules(ctx, W); rhs_rules(ctx, W); bounds_rules(ctx, W); ids_rules(ctx, W)
+    magic_rules(ctx, W); keyword_rules(ctx, W); linear_rules(ctx, W); rhs_rules(ctx, W); bounds_rules(ctx, W); ids_rules(ctx, W); output_rules(ctx, W)
     wm = W.get('mps::to_mps::write_mps')
     if wm is not None: section_rules(ctx, W, wm)
     # decided instances per family on the unchanged tree
-    for fam, n in {'C18.magic': 4, 'C18.keywords': 26, 'C18.linear': 8, 'C18.bounds': 8, 'C18.ids': 9, 'C18.sections': 8, 'C18.rhs': 3, 'C18.columns': 7}.items():
+    for fam, n in {'C18.magic': 4, 'C18.keywords': 26, 'C18.linear': 8, 'C18.bounds': 8, 'C18.ids': 9, 'C18.sections': 8, 'C18.output': 2, 'C18.rhs': 3, 'C18.columns': 7}.items():
         ctx.floor(fam, n)
